@@ -185,6 +185,7 @@ pub fn exchange(ctx: &mut Ctx, meta: &Arc<Meta>, now_ns: u128, plan: &ReqPlan, c
     s.add("stream_pending_returned", st.pendings);
     s.add("stream_deferred_wakes", st.deferred);
     s.add("stream_empty_chunks", st.empty_chunks);
+    s.add("stream_empty_run_chunks", st.empty_run_chunks);
     s.add("stream_chunks", st.chunks);
     s.add("consumer_fresh_wakers", ex.log.fresh_wakers);
     s.add("entity_stream_polled_after_done", st.polls_after_done);
@@ -450,6 +451,9 @@ pub fn run(ctx: &mut Ctx) -> Result<RunOut, Violation> {
         // C06: an entity stream may fail with an Err (that honours the Entity contract); the
         // multipart body must then not end cleanly looking complete with a part's bytes missing.
         "C06" => t.chance(1, 6),
+        // C02: likewise; a body that still ends cleanly after an entity error (a retrying
+        // implementation) must be the right bytes, without gaps or repeats.
+        "C02" => t.chance(1, 6),
         _ => false,
     };
     let now_ns = gen_clock(t);
@@ -507,7 +511,7 @@ pub fn run(ctx: &mut Ctx) -> Result<RunOut, Violation> {
     }
     let t = &mut ctx.tape;
     let mut knobs = gen_knobs(t, faults);
-    if focus == "C12" || focus == "C01" || focus == "C06" {
+    if focus == "C12" || focus == "C01" || focus == "C06" || focus == "C02" {
         // Only contract-honouring misbehaviour: failing early with an Err.
         knobs.faults.retain(|f| *f == FaultKind::Error);
     }
@@ -521,7 +525,8 @@ pub fn run(ctx: &mut Ctx) -> Result<RunOut, Violation> {
         fresh_waker_p8: [0u32, 2, 8][t.draw(3) as usize],
         arm_fault: faults && !knobs.faults.is_empty(),
         // Compensating pairs (one part too long, another too short): C07 only.
-        extra_faults: if focus == "C07" && t.chance(1, 4) { 1 } else { 0 },
+        // C02/C06: a flaky entity fails more than once (also on a stream reopened after a failure).
+        extra_faults: if focus == "C07" && t.chance(1, 4) { 1 } else if (focus == "C02" || focus == "C06") && faults { t.draw(3) } else { 0 },
         clock_step_ns: 0,
         knobs,
     };
@@ -689,6 +694,11 @@ pub fn check_c02(ctx: &mut Ctx, ex: &Exchange, meta: &Meta, plan: &ReqPlan, sig:
     }
     let l = meta.len;
     let complete = ex.clean_end();
+    if !complete && ex.fired.is_some() && ex.first_err().is_some() {
+        // An entity stream failed and the body reported an error: nothing more for C02 to say
+        // (what was delivered before the error is judged by C07's prefix oracle).
+        return Ok(RunOut { sig, nontrivial: false });
+    }
     let why_incomplete = || {
         if ex.log.stalled {
             "the consumer was left parked with no wake-up pending (stalled)".to_string()
@@ -1260,7 +1270,7 @@ fn run_c14(ctx: &mut Ctx) -> Result<RunOut, Violation> {
     let t = &mut ctx.tape;
     let t1 = gen_clock(t);
     let meta = Arc::new(gen_meta(t, t1, 2));
-    let rk = ReqKnobs { methods: 0, ranges: [0u32, 0, 1][t.draw(3) as usize], conditionals: t.chance(1, 3), hostile: false };
+    let rk = ReqKnobs { methods: 0, ranges: [0u32, 0, 1, 1, 2][t.draw(5) as usize], conditionals: t.chance(1, 3), hostile: false };
     let plan1 = gen_request(t, &meta, t1, &rk);
     let cfg = quiet_cfg(t);
     let ex1 = exchange(ctx, &meta, t1, &plan1, &cfg);
